@@ -8,7 +8,7 @@ S->C  : DTCWTInverse on the basis of the WHOLE pyramid (every coefficient of eve
         reference inverse assembled from TLC's Ref pieces; random pyramids for the named filter pairs against
         dtcwt.Transform2d.inverse.
 """
-from .. import dtlib, dtchecks, stagetrace
+from .. import dtlib, dtchecks, stagetrace, suitetrace
 from ..findings import Findings
 
 LEVEL = "model_checking"
@@ -27,6 +27,8 @@ def run(rep):
     dtchecks.inverse_replay(rep, fnd, tab, res2.records, "C11")
     dtchecks.numeric_inverse(rep, fnd, "C11", rep.tier)
     stagetrace.validate_dtcwt(rep, "C11", rep.tier, "DTCWTInverse")
+    if rep.tier == "thorough":
+        suitetrace.validate_suite(rep, "C11", "DTCWTInverse")
     rep.assumptions += ["bounded sizes (coverage.tlc_runs)", "a pyramid whose lowpass AND coarsest level are both absent has no shape: outside the property"]
 
 
